@@ -103,9 +103,8 @@ theorem break_in_main_loop_rejected (pre body : Stmt) (h : breaksOut body = true
         · obtain ⟨e, he⟩ := iha hb te; rw [he] at ha'; cases ha'
         · obtain ⟨e, he⟩ := ihb hb te; rw [he]; exact ⟨e, rfl⟩
     | _ => intro hb; simp [breaksOut] at hb
-  unfold tr
-  split
-  · unfold trCore
+  have core : ∃ e, trCore { pre := pre, body := some body } = .error e := by
+    unfold trCore
     cases hacc : trTop {} pre with
     | error e => exact ⟨e, rfl⟩
     | ok acc =>
@@ -113,6 +112,10 @@ theorem break_in_main_loop_rejected (pre body : Stmt) (h : breaksOut body = true
       refine ⟨e, ?_⟩
       show (do let loop ← trNested acc.te true 0 body; pure _) = _
       rw [he]; rfl
+  unfold tr
+  split
+  · obtain ⟨e, he⟩ := core
+    exact withHelpers_error he
   · exact ⟨_, rfl⟩
 
 /-- expression level: on well-typed expressions Python's value and C's value agree up to the declared-type
@@ -254,7 +257,7 @@ theorem promoted_read_before_assignment :
     setup := .seq (.ifs (.cmp .gt (.var "c") (.int 0)) (.assign "x" (.int 5)) .skip) (.write (.bin .add (.var "x") (.int 0)))
     loop := .skip }
   have h : tr2 p = .ok c0 := by
-    simp [p, c0, tr2, tr2Core, Prog.numbered, Stmt.numberedFrom, Stmt.tmpEnd, trTop2, trTop, trChain2, trBody2, trNested, sortDecls, newDecls, addPromoted,
+    simp [p, c0, tr2, tr2Core, withHelpers, Prog.resolved, helpersOk, Stmt.callsOk, trHelpers, Prog.numbered, Stmt.numberedFrom, Stmt.tmpEnd, trTop2, trTop, trChain2, trBody2, trNested, sortDecls, newDecls, addPromoted,
       Reduino.Lemmas.C01p.sorted_single, inferTy, evalConst, Expr.nameFree, Py.eval, defaultOf, seqOf, List.lookup,
       bind, Except.bind, pure, Except.pure, Except.toOption]
   exact ⟨by rfl, c0, h, by rfl⟩
@@ -271,7 +274,7 @@ example :
       Py.run p 2 80 = .ok [.write "7", .write "8", .write "9"] := by
   intro p
   have h : ∃ c, tr2 p = .ok c ∧ c.globals.map (·.1) = ["c", "abe", "zed", "s"] := by
-    simp [p, tr2, tr2Core, Prog.numbered, Stmt.numberedFrom, Stmt.tmpEnd, trTop2, trTop, trChain2, trBody2, trNested, sortDecls, newDecls, addPromoted,
+    simp [p, tr2, tr2Core, withHelpers, Prog.resolved, helpersOk, Stmt.callsOk, trHelpers, Prog.numbered, Stmt.numberedFrom, Stmt.tmpEnd, trTop2, trTop, trChain2, trBody2, trNested, sortDecls, newDecls, addPromoted,
       Reduino.Lemmas.C01p.sorted_single, Reduino.Lemmas.C01p.sorted_zed_abe, inferTy, evalConst, Expr.nameFree, Py.eval,
       defaultOf, seqOf, List.lookup, foldArg, bind, Except.bind, pure, Except.pure, Except.toOption]
   exact ⟨by decide, by decide, h, by rfl⟩
